@@ -122,6 +122,9 @@ def wrappers():
         'partial': lambda v: __import__('functools').partial(fixtures.f, v),
         'exception': lambda v: ValueError(v),
         'c_callarg': lambda v: Call(comment(v, 'c'), 1),
+        'c_callhug': lambda v: Call(comment([v], 'c')),         # the sole (hugged) argument of a call carries the comment
+        'tc_callhug': lambda v: Call(trailing_comment([v], 't')),
+        'c_exc': lambda v: ValueError(comment([v], 'c')),
     }
 
 
@@ -137,7 +140,7 @@ def hashable(v):
         return repr(type(v))
 
 
-RECIPE_ALPHABET = ['list', 'tuple', 'dictval', 'dictkey', 'c_elem', 'c_dictval', 'callarg']
+RECIPE_ALPHABET = ['list', 'tuple', 'dictval', 'dictkey', 'c_elem', 'c_dictval', 'callarg', 'c_callhug']
 
 
 def named_families():
@@ -146,9 +149,14 @@ def named_families():
     fams = {}
     for name in ('list', 'tuple', 'list2', 'dictval', 'dict3', 'frozenset', 'c_elem', 'c_dictval', 'c_dictkey',
                  'tc_list', 'c_tuple', 'callarg', 'c_kwarg', 'tc_dict', 'ordereddict', 'deque', 'defaultdict', 'chainmap',
-                 'namespace', 'namedtuple', 'sublist', 'subdict', 'partial', 'exception', 'c_callarg'):
+                 'namespace', 'namedtuple', 'sublist', 'subdict', 'partial', 'exception', 'c_callarg',
+                 'c_callhug', 'tc_callhug', 'c_exc'):
         fams['nest:' + name] = ((lambda n, w=W[name]: chain(w, n)), 4)
     fams['nest:dictkey'] = (lambda n: {chain(lambda v: (v,), n): 1}, 4)
+    for leafname, leaves in (('complex', (1j, 2j)), ('mixed', (1, 'a')), ('none-vs-int', (None, 0)), ('functions', (len, max))):
+        fams['keys:deep-tuple-' + leafname] = (lambda n, leaves=leaves: {chain(lambda v: (v,), n, leaves[0]): 1, chain(lambda v: (v,), n, leaves[1]): 2,
+                                                                          chain(lambda v: (0, v), n, leaves[0]): 3}, 4)
+    fams['keys:many-unorderable'] = (lambda n: {(complex(i, 1) if i % 2 else 'k%d' % i): i for i in range(n * 10)}, 4)
     fams['flat:list'] = (lambda n: list(range(n * 20)), 4)
     fams['flat:dict'] = (lambda n: {i: i for i in range(n * 20)}, 4)
     fams['flat:set'] = (lambda n: set(range(n * 20)), 4)
@@ -188,7 +196,7 @@ def all_families(tier):
 
 def measure_family(name, build, n0, part, widths=(20, 79)):
     mon = monitor()
-    for w in widths:
+    for w, srt in [(w, False) for w in widths] + [(79, True)]:
         prev = None
         series = []
         for k in range(4):
@@ -199,8 +207,8 @@ def measure_family(name, build, n0, part, widths=(20, 79)):
                 break
             budget = FIRST_BUDGET if prev is None else FACTOR * prev + SLACK
             part.n += 1
-            steps, status = mon.steps(v, budget, width=w)
-            case = {'family': name, 'n': n, 'width': w}
+            steps, status = mon.steps(v, budget, width=w, sort_dict_keys=srt)
+            case = {'family': name, 'n': n, 'width': w, 'sort_dict_keys': srt}
             series.append(steps)
             if status == 'budget':
                 if prev is None:
@@ -220,7 +228,7 @@ def measure_family(name, build, n0, part, widths=(20, 79)):
             ratios = [round(series[i + 1] / max(1, series[i]), 2) for i in range(3)]
             part.c['max_ratio_x100'] = max(part.c['max_ratio_x100'], int(max(ratios) * 100))
             if len(part.samples) < 2:
-                part.sample({'family': name, 'width': w, 'steps': series, 'ratios': ratios})
+                part.sample({'family': name, 'width': w, 'sort_dict_keys': srt, 'steps': series, 'ratios': ratios})
 
 
 def work(item):
